@@ -102,10 +102,20 @@ def pDRef : TP DRef := do
     | some b => pure (.ok b)
     | none => failure
 
+/-- `<ref>[@<media type index>] <size>` -/
 def pLayer : TP Layer := do
-  let d ← pDRef
+  let t ← tok
+  let (r, mt) := match t.splitOn "@" with
+    | [r, k] => (r, k.toNat?.getD 0)
+    | _ => (t, 0)
+  let d ← (match r with
+    | "e" => pure DRef.empty
+    | "b" => pure DRef.bad
+    | _ => match unhex r with
+      | some b => pure (DRef.ok b)
+      | none => failure : TP DRef)
   let s ← nat
-  pure ⟨d, s⟩
+  pure ⟨d, s, mt⟩
 
 def pManifest : TP Manifest := do
   let ls ← listOf pLayer
@@ -191,7 +201,7 @@ def pLScript : TP (Digest × LScript) := do
   let cs ← listOf (listOf pChunk)
   pure (d, ⟨h, di, cs⟩)
 
-def pAttempt : TP Scripts := do
+def pAttemptR : TP (Scripts × Option Manifest) := do
   expect "ms"
   let ms ← listOf (pReply pMBody)
   expect "tok"
@@ -212,7 +222,13 @@ def pAttempt : TP Scripts := do
   let _ ← listOf tok
   expect "validate"
   let _ ← nat
-  pure ⟨ms, ts, ls, cp⟩
+  -- the manifest the registry serves in THIS attempt, when the tag was re-published since the case's `reg`
+  expect "rereg"
+  let k ← nat
+  let rr ← (if k == 0 then pure none else do return some (← pManifest) : TP (Option Manifest))
+  pure (⟨ms, ts, ls, cp⟩, rr)
+
+def pAttempt : TP Scripts := do return (← pAttemptR).1
 
 def pPart : TP Part := do
   let o ← nat
@@ -259,7 +275,8 @@ def showOutcome : Outcome → String
   | .panic .challenge => "panic:challenge"
   | .panic .emptyDigest => "panic:empty-digest"
 
-def showLayer (l : Layer) : String := s!"{showDRef l.digest}/{l.size}"
+def showLayer (l : Layer) : String :=
+  s!"{showDRef l.digest}/{l.size}" ++ (if l.media == 0 then "" else s!"@{l.media}")
 
 def showManifest (m : Manifest) : String :=
   s!"l({joinWith "," (m.layers.map showLayer)})c({showLayer m.config})"
@@ -289,12 +306,14 @@ def ofAssoc {β} (dflt : β) (l : List (Digest × β)) : Digest → β :=
     | some kv => kv.2
     | none => dflt
 
-def runAttempts (cfg : Cfg) (univ : List Digest) (name : Name) (reg : Registry) :
-    List Scripts → Store → List String
-  | [], _ => []
-  | sc :: rest, st =>
-    let (o, st', log) := pull cfg sha256 name reg sc st
-    s!"{showOutcome o} {showNet log.net} {showStore univ st'}" :: runAttempts cfg univ name reg rest st'
+/-- the history of the case: every attempt pulls `name`; the registry serves the case's manifest unless the
+    attempt carries its own (re-published tag); blobs and realm are the case's -/
+def stepsOf (name : Name) (reg : Registry) (atts : List (Scripts × Option Manifest)) : List HStep :=
+  atts.map fun (sc, rr) => ⟨name, { reg with manifest := rr.getD reg.manifest }, sc⟩
+
+def runAttempts (cfg : Cfg) (univ : List Digest) (steps : List HStep) (st : Store) : List String :=
+  (runHistory cfg sha256 steps st).map fun (o, st', log) =>
+    s!"{showOutcome o} {showNet log.net} {showStore univ st'}"
 
 def pPull : TP String := do
   expect "cfg"
@@ -327,13 +346,13 @@ def pPull : TP String := do
   expect "content"
   let content ← listOf (do let d ← hex; let c ← hex; pure (d, c))
   expect "attempts"
-  let atts ← listOf pAttempt
+  let atts ← listOf pAttemptR
   expect "raw"      -- driver-only: the JSON shape in which the manifest `reg` is served
   let _ ← tok
   let st : Store := { blobs := ofAssoc none (blobs.map fun (d, c) => (d, some c)),
                       partials := ofAssoc Partial.none partials, manifests := mans }
   let reg : Registry := ⟨m, content, realm⟩
-  pure (joinWith " || " (runAttempts cfg univ name reg atts st))
+  pure (joinWith " || " (runAttempts cfg univ (stepsOf name reg atts) st))
 
 /-- pull2 <during|duringCancelB|duringCancelA|atVerify> cfg … (as pull) … x <dig> nameA <n> nameB <n> realm <hex>
     regA MANIFEST regB MANIFEST content <n> {dig content} A ATTEMPT B ATTEMPT  ->  <outcome A> <outcome B> <store> -/
